@@ -218,7 +218,7 @@ func Fail(fn string) error {
 }
 
 // Ok / Bad record an evaluation.
-func (t *FT) Ok(class string) { t.rep.Ok(class) }
+func (t *FT) Ok(class string)                    { t.rep.Ok(class) }
 func (t *FT) Bad(class, format string, a ...any) { t.rep.Fail(class, format, a...) }
 
 // Expect compares the call log with the expected calls (exactly, in order).
